@@ -625,7 +625,7 @@ def l17(ctx, rid):
     (Storage::init_ext) no Ok return is reachable around the launch - also not for `nothing to load` corner cases such as a lazy
     init of an empty directory (the first write would create the active blob inline, and nothing would ever rotate it)"""
     prog = ctx.prog
-    S = core.Summ(prog, lambda c: c.name == 'launch_observer' or any(t.endswith('::launch_observer') for t in prog.resolve(c)), need_ok=False)
+    S = core.Summ(prog, lambda c: c.name == 'launch_observer' or any(t.endswith('::launch_observer') or t.endswith('observer::Observer::<K>::run') for t in prog.resolve(c)), need_ok=False)
     n = 0
     for f in prog.fns.values():
         if f.file != 'src/storage/core.rs' or not any(S.pred(c) for c in f.calls if c.bb in f.reachable()):
